@@ -31,7 +31,7 @@ def rand_file(rng, maxlen=12, small=False, crlf_p=0.1, nonl_p=0.15):
         k = rng.randint(0, len(lines))
         lines[k:k] = lines[i:j]
         lines = lines[:maxlen + 6]
-    if lines and rng.random() < nonl_p:
+    if lines and rng.random() < nonl_p and lines[-1][0]:
         lines[-1] = (lines[-1][0], "N")
     # canonical reader invariant: an LF line never ends in CR (it would have been read as CRLF)
     lines = [((c[:-1] if (nl == "L" and c.endswith(b"\r")) else c), nl) for c, nl in lines]
@@ -64,7 +64,7 @@ def edit(rng, a, small=False, nedits=None):
             b[i:j] = [(rand_content(rng, small), nlk) for _ in range(rng.randint(1, 3))]
     b = [((c[:-1] if (nl == "L" and c.endswith(b"\r")) else c), nl) for c, nl in b]
     r = rng.random()
-    if b and (r < 0.12 or (had_n and r < 0.5)):
+    if b and b[-1][0] and (r < 0.12 or (had_n and r < 0.5)):
         b[-1] = (b[-1][0], "N")
     return b
 
@@ -117,6 +117,15 @@ def rand_hunk(rng, file=None, small=False):
         lines.append((op, l))
     oc = sum(1 for op, _ in lines if op != PLUS)
     nc = sum(1 for op, _ in lines if op != MINUS)
+    # a line without newline can only be the last line of the old or of the new side
+    lo = max([i for i, (op, _) in enumerate(lines) if op != PLUS], default=-1)
+    ln = max([i for i, (op, _) in enumerate(lines) if op != MINUS], default=-1)
+    def ok_n(i, op):
+        # '-': last old-side line; '+': last new-side line; context: last line of both sides (= last line of the hunk)
+        if op == MINUS: return i == lo
+        if op == PLUS: return i == ln
+        return i == lo and i == ln
+    lines = [(op, (c, ("L" if (nl == "N" and not ok_n(i, op)) else nl))) for i, (op, (c, nl)) in enumerate(lines)]
     big = rng.random() < 0.05
     os_ = rng.choice([0, 1, 2, 3, 5, 8, 13, 100]) if not big else rng.choice([2**31, 2**62])
     ns_ = rng.choice([0, 1, 2, 3, 5, 8, 13, 100])
@@ -143,7 +152,7 @@ def drift(rng, a, small=False):
             i = rng.randrange(len(b)); c = b[i][0]
             b[i] = (c.replace(b" ", b"  ").replace(b"\t", b" ") + rng.choice([b"", b" ", b"\t"]), b[i][1])
     if b:
-        b = [(c, ("L" if (nl == "N" and k != len(b) - 1) else nl)) for k, (c, nl) in enumerate(b)]
+        b = [(c, ("L" if (nl == "N" and (k != len(b) - 1 or not c)) else nl)) for k, (c, nl) in enumerate(b)]
     b = [((c[:-1] if (nl == "L" and c.endswith(b"\r")) else c), nl) for c, nl in b]
     return b
 
